@@ -39,6 +39,36 @@ class Ctx:
         return Exec(self.fns).find(rx)
 
 
+def guard_scenarios(run):
+    """A scenario that meets a program structure its analysis code was not written for (after an edit to /repo that the
+    summaries do not know) must not take the whole check down: it ends as INCONCLUSIVE - printed, recorded in the
+    evidence, exit code unchanged - and the other scenarios of the property still decide. Lookups of MIR bodies that
+    no longer exist and solver / build problems stay fatal (exit 2)."""
+    import glob, inspect, functools
+    from vf.mirsym import Unmodelled
+    for path in glob.glob(os.path.join(os.path.dirname(os.path.abspath(__file__)), 'scen_*.py')):
+        mod = importlib.import_module('vf.' + os.path.basename(path)[:-3])
+        for name, fn in list(vars(mod).items()):
+            if not inspect.isfunction(fn) or fn.__module__ != mod.__name__ or name.startswith(('_', 'replay', 's_')): continue
+            params = list(inspect.signature(fn).parameters)
+            if not params or params[0] != 'ctx': continue
+            def make(fn, name):
+                @functools.wraps(fn)
+                def wrapped(ctx, *a, **kw):
+                    try:
+                        return fn(ctx, *a, **kw)
+                    except (KeyError, AttributeError, TypeError, IndexError, ValueError, Unmodelled, RuntimeError, AssertionError) as e:
+                        if isinstance(e, report.Broken): raise
+                        msg = f'scenario {name}: {type(e).__name__}: {str(e)[:200]}'
+                        tb = traceback.format_exc().strip().splitlines()[-3:]
+                        run.inconclusive.append(msg + ' @ ' + ' | '.join(t.strip() for t in tb))
+                        print(f'INCONCLUSIVE property={run.prop} scenario={name} reason={type(e).__name__}: {str(e)[:160]}')
+                        run.scenario_failures = getattr(run, 'scenario_failures', 0) + 1
+                        return None
+                return wrapped
+            setattr(mod, name, make(fn, name))
+
+
 def main():
     ap = argparse.ArgumentParser()
     ap.add_argument('prop')
@@ -59,6 +89,7 @@ def main():
     try:
         tree = build.Tree()
         ctx = Ctx(run, tree, a.tier, seed)
+        guard_scenarios(run)
         mod = importlib.import_module(f'vf.props.{prop.lower()}')
         mod.run(ctx)
         run.times.update(build.TIMES)
